@@ -17,6 +17,7 @@ import random
 
 from .. import common as C
 from .. import enc_expr as E
+from .. import forms as F
 from .. import gen_graph as G
 from ..oracles import id_run as R
 from ..oracles import scm_eval as S
@@ -30,6 +31,7 @@ RULE = ("ADMGs with 3-5 nodes (thorough: up to 6; half random, half mutations of
         "Every returned estimand is evaluated exactly on 2-3 random positive SCMs at every assignment. A case is "
         "non-trivial when rule 2 was tested with both outcomes (some exchange made or refused) or ID used lines 4-7.")
 ASSUMPTIONS = [
+    "argument FORMS (harness/forms.py, harness/oracles/id_run.py id_slots; chosen deterministically per case, stored in the case, tagged form_*): treatments / outcomes / conditions as set / frozenset / list / tuple / dict keys / generator / iterator / map or a bare Variable for a one-element set; the Identification made by Identification(query=Query(..), graph=..) by keyword or by position, by from_parts(conditions=..), or by from_expression from P[X](Y | Z) and P(Y @ X | Z @ X) (valid queries only); identify_outcomes positional (conditions as fourth positional argument too) or by keyword; the graph through every public constructor. The model takes lists; independence of the form is a runtime clause decided by correspondence + oracle",
     "model class: positive discrete semi-Markovian SCMs with independent root latents (Y0/Spec/Scm.lean)",
     "the order in which the loop over `identification.conditions` (a Python set) meets the conditions is a parameter of the model; theorems hold for every order, the correspondence feeds the observed one",
     "`graph.topological_sort()` is a parameter `topo` of the model (trusted: networkx returns linear extensions)",
@@ -49,7 +51,19 @@ def _corpus():
     return out
 
 
+def _slots(case):
+    return R.id_slots(case["X"], case["Y"], case["Z"], case.get("via", "idc"))
+
+
+def _forms(case):
+    return F.forms_of(case, _slots(case))
+
+
 def cases(rng: random.Random, tier: str):
+    return [F.assign(c, _slots(c)) for c in _cases(rng, tier)]
+
+
+def _cases(rng: random.Random, tier: str):
     nmax = 5 if tier == "quick" else 6
     out = [dict(c) for c in _corpus()]
     # structured: several conditions, one of them an opened collider (or a descendant of one) between the tested
@@ -112,11 +126,12 @@ _memo = {}
 def _run(case):
     """the real run; memoised per process (`request` and `canon_model` run serially in the main process and the run is
     deterministic within a process)"""
-    k = json.dumps([case["g"], case["X"], case["Y"], case["Z"], case.get("via", "idc")], sort_keys=True)
+    fm = _forms(case)
+    k = json.dumps([case["g"], case["X"], case["Y"], case["Z"], case.get("via", "idc"), fm], sort_keys=True)
     if k not in _memo:
         if len(_memo) > 50000:
             _memo.clear()
-        _memo[k] = R.run_identify(case["g"], case["X"], case["Y"], via=case.get("via", "idc"), conditions=case["Z"])
+        _memo[k] = R.run_identify(case["g"], case["X"], case["Y"], via=case.get("via", "idc"), conditions=case["Z"], forms=fm)
     return _memo[k]
 
 
@@ -151,12 +166,13 @@ def run_python(case):
             "n_z": len(case["Z"]), "exchanges": len(exchanged), "rule2_refused": any(not ok for _, ok in r["rule2"]),
             "via": case.get("via", "idc")}
     tags.update(R.line_tags(r["lines"]))
+    tags.update(R.id_form_tags(case, _forms(case)))
     if valid:
         tags["nonancestor_conditions"] = _nonancestor_conditions(case)
     if tags["kind"] == "structured":
         tags["structured_kind"] = case["label"].split(":", 1)[1].replace("collider:", "").split("+")[0]
-    fail = None
-    if valid:
+    fail = r["exc_msg"] if r["exc"] == "ConstructorFault" else None
+    if valid and fail is None:
         if r["exc"] not in (None, "Unidentifiable"):
             fail = f"IDC failed with {r['exc']} ({r['exc_msg']}) on a valid query: neither an estimand nor 'unidentifiable'"
         elif r["exc"] is None:
